@@ -436,6 +436,14 @@ example : DelayWf gJ := ⟨rfl, rfl, by decide, by decide⟩
 example : Gen.MacTopFn.Mac.get_rx_delay gJ .Data ._2 = some 2000 := rfl
 example : Gen.MacTopFn.Mac.get_rx_delay gJ .Join ._1 = some 5000 := rfl
 example : Gen.MacTopFn.Mac.send (txOps gr0) g0 (5 : Nat) .garbage ([1, 2], 1, false) = some (none, g0, (5 : Nat), .garbage) := rfl
+/-- the regenerated `send` on a joined EU868 device with commanded level 2 (limit `min 2 14`): power 2, a channel of the
+plan, FCntUp 0, one draw consumed -/
+example : (Gen.MacTopFn.Mac.send (txOps gr0) gJ (5 : Nat) .garbage ([1, 2], 1, false)).map
+    (fun x => (x.1.map (fun t => (t.1.1, t.1.2.frequency, t.2.2)), x.2.2.1)) = some (some (2, 868500000, 0), (6 : Nat)) := by rfl
+/-- the regenerated `join_otaa` on an unjoined EU868 device: power `min 16 14`, DevNonce = low 16 bits of the first draw,
+two draws consumed, state `Otaa` -/
+example : (Gen.MacTopFn.Mac.join_otaa (txOps gr0) g0 (5 : Nat) () .garbage).map
+    (fun x => (x.1.1.1, x.1.2.2, Gen.MacTopFn.Mac.is_joined x.2.1, x.2.2.1)) = some (14, 47194, false, (8 : Nat)) := by rfl
 end TieA.MacTop.Example
 
 #print axioms C09.tieA_mac_send_partial
